@@ -83,6 +83,15 @@ def build(layout):
     return hub, model
 
 
+def fresh_hub(model):
+    from armulator.armv6.memory_controller_hub import MemoryControllerHub
+    hub = MemoryControllerHub()
+    for begin, end, data in model:
+        hub.add_memory("RAM", begin, end)
+        hub.memories[-1].mem.memory_array[:] = data
+    return hub
+
+
 class Desc:
     pass
 
@@ -156,6 +165,18 @@ def apply(hub, model, ev, step, res, layout, hist, check=True):
                 fail("wrong-value", "read returned %#x, device bytes give %#x" % (got, exp))
         elif kind == "past-end" and not isinstance(got, int):
             fail("wrong-type", "read returned %r" % (got,))
+        elif kind == "past-end" and check:
+            # the bytes beyond the device are not specified, but the value must be a function of the devices' current
+            # contents: the same read on a freshly built hub holding the same bytes must give the same value (no bytes
+            # left over from earlier accesses)
+            fresh = fresh_hub(model)
+            try:
+                ref = fresh[mkdesc(addr), size]
+            except Exception as e:  # noqa
+                ref = type(e).__name__
+            if got != ref:
+                fail("value-depends-on-earlier-accesses", "read returned %#x after this history, %s on a fresh hub with "
+                     "the same device contents" % (got, hex(ref) if isinstance(ref, int) else ref))
     # invariants in the reached state
     for k, (m, mc) in enumerate(zip(model, hub.memories)):
         arr = mc.mem.memory_array
